@@ -11,3 +11,7 @@ const hooksAvailable = true
 func softLineBreakDecision(d *dumper, thisLast, nextFirst rune) bool {
 	return html.VerifSoftLineBreak(d.ea, thisLast, nextFirst)
 }
+
+func hookSoftLineBreak(style int, a, b rune) bool {
+	return html.VerifSoftLineBreak(html.EastAsianLineBreaks(style), a, b)
+}
